@@ -186,6 +186,10 @@ def cases(c):
                 spec = [4, 1] if (NFFT <= 9 or not quick) else [4, 4]
                 out.append({'form': 'paths', 'cplx': cplx, 'NFFT': NFFT, 'vec': v, 'pathset': spec,
                             'directed': NFFT in (2, 3, 4, 5)})
+            # the same grid reached through NFFT=None (data length) and NFFT='nextpow2'
+            out.append({'form': 'paths', 'cplx': cplx, 'NFFT': NFFT, 'vec': 'rand', 'pathset': [2, 1], 'how': 'None'})
+            if NFFT >= 4 and (NFFT & (NFFT - 1)) == 0:
+                out.append({'form': 'paths', 'cplx': cplx, 'NFFT': NFFT, 'vec': 'rand', 'pathset': [2, 1], 'how': 'nextpow2'})
     for i in range(20 if quick else 7200):
         NFFT = int(rng.integers(18, 258))
         cplx = int(rng.integers(0, 2))
@@ -228,7 +232,10 @@ def run_case(c, d):
     L = NFFT if cplx else refs.onesided_len(NFFT)
     v0 = make_vec(c, d, L)
     start = 'twosided' if cplx else 'onesided'
-    data = (np.ones(2) * (1 + 1j)) if cplx else np.ones(2)
+    how = d.get('how', 'int')
+    ndata = NFFT if how == 'None' else (NFFT - 1 if how == 'nextpow2' else 2)
+    data = (np.ones(ndata) * (1 + 1j)) if cplx else np.ones(ndata)
+    nfft_arg = None if how == 'None' else ('nextpow2' if how == 'nextpow2' else NFFT)
     c.set_nontrivial(True)
     base_feats = {'datatype': 'complex' if cplx else 'real', 'nfft_odd': bool(NFFT % 2)}
     if 'pathset' in d:
@@ -239,7 +246,7 @@ def run_case(c, d):
     c.count('paths_walked', len(paths))
     for path in paths:
         try:
-            s = spectrum.Spectrum(data, NFFT=NFFT)
+            s = spectrum.Spectrum(data, NFFT=nfft_arg)
             s.psd = v0
         except Exception as exc:
             c.exception('setup', exc, base_feats)
@@ -303,7 +310,7 @@ def run_case(c, d):
         # (d) path independence: equals the direct conversion of the pristine object to the final sides
         final = path[-1]
         try:
-            s2 = spectrum.Spectrum(data, NFFT=NFFT)
+            s2 = spectrum.Spectrum(data, NFFT=nfft_arg)
             s2.psd = v0
             dgot = np.asarray(s2.get_converted_psd(final), dtype=float)
         except Exception as exc:
